@@ -4,6 +4,7 @@ package main
 import (
 	"bytes"
 	"fmt"
+	"io"
 	"strings"
 
 	gots "github.com/Comcast/gots/v2"
@@ -392,7 +393,20 @@ func run(c *mon.Ctx) {
 			st.Write(pk[:r.Intn(188)]) // a PAT packet cut by the end of the stream
 		}
 		in := append([]byte{}, st.Bytes()...)
-		pat, err := psi.ReadPAT(bytes.NewReader(in))
+		// "a packet stream" is whatever an io.Reader hands out: all at once, in small pieces, one byte at a
+		// time, the last piece together with io.EOF
+		var src io.Reader = bytes.NewReader(in)
+		switch r.Intn(5) {
+		case 1:
+			src = &pieces{b: in, max: 1}
+		case 2:
+			src = &pieces{b: in, max: 1 + r.Intn(400), r: r}
+		case 3:
+			src = &pieces{b: in, max: 188 * (1 + r.Intn(40)), eofWithData: true}
+		case 4:
+			src = &pieces{b: in, max: 1 + r.Intn(300), r: r, eofWithData: true}
+		}
+		pat, err := psi.ReadPAT(src)
 		c.Eval(1)
 		if noPAT {
 			c.Count("stream.without_pat")
@@ -430,6 +444,34 @@ func run(c *mon.Ctx) {
 	}
 	c.Floor("stream.without_pat", 100)
 	c.Floor("stream.pat_behind_megabytes", 5)
+}
+
+// pieces is a reader that hands out its bytes in pieces of at most max bytes (random sizes when r is set) and,
+// if eofWithData is set, returns io.EOF together with the last piece instead of on a separate call.
+type pieces struct {
+	b           []byte
+	max         int
+	r           *gen.Rand
+	eofWithData bool
+}
+
+func (p *pieces) Read(out []byte) (int, error) {
+	if len(p.b) == 0 {
+		return 0, io.EOF
+	}
+	n := p.max
+	if p.r != nil {
+		n = 1 + p.r.Intn(p.max)
+	}
+	if n > len(out) {
+		n = len(out)
+	}
+	n = copy(out[:n], p.b)
+	p.b = p.b[n:]
+	if len(p.b) == 0 && p.eofWithData {
+		return n, io.EOF
+	}
+	return n, nil
 }
 
 func tail(b []byte, n int) []byte {
